@@ -94,6 +94,10 @@ fn build(seed: u64) -> Layout {
             if r.chance(1, 5) {
                 t.push_str(&format!("if (v_f{f}_d{d} == 1) {{ qubit inner_q; }}\n"));
             }
+            // now and then a copy is blank: empty, whitespace only, or a lone comment
+            if r.chance(1, 8) {
+                t = r.pick(&["", "\n", "  \t\n\n", "// nothing here\n", "/* nothing here */"]).to_string();
+            }
             content[f][d] = t;
         }
     }
